@@ -399,9 +399,9 @@ def c05_eval_text(work, drv, text, expect=None, trigger=None, corr_only=False):
 
 
 def project05(v):
-    """the harness's view05 restricted to what the Lean view05 has (no properties of ports / cells / nets, no external flag)"""
+    """the harness's view05 restricted to what the Lean view05 has (no properties of ports / cells / nets)"""
     return {"name": v["name"],
-            "libs": [{"name": L["name"],
+            "libs": [{"name": L["name"], "external": bool(L.get("external", False)),
                       "cells": [{"name": C["name"], "view": C["view"],
                                  "ports": [{k: p[k] for k in ("name", "dir", "width", "array")} for p in C["ports"]],
                                  "insts": [{k: i[k] for k in ("name", "ref", "props")} for i in C["insts"]],
@@ -439,6 +439,38 @@ def lean_denote_check(sr, work, drv, inp):
                          {"diff_at": d1}, None)
 
 
+ERASED = "theorem_fragment:C05.edif_reader_spec_erased"
+
+
+def lean_inside_check(sr, drv, text, impl_canon, inp, where="", mine=None):
+    """Reach of C05.edif_reader_spec_erased on ONE TEXT (generated, bundled or written by the composer): the driver parses the
+    text, strips it (`strip`: comments, status blocks, erased properties, …), guesses an abstract design (`unrender`, untrusted)
+    and CHECKS the theorem's hypotheses (`insideClause`, proved sound: C05.inside_check_sound): the model accepts the text,
+    `norm (strip e) = norm (render d)`, `d.wf`.  Inside: the theorem says view05 of what the model reader builds is `denote d`;
+    the counter records it, and the REAL reader's view of the same text must be that denotation too (and, for generated
+    designs, the harness's own denotation).  Returns the label counted."""
+    try:
+        r = drv.ask({"fn": "inside05", "text": text})
+    except Exception:
+        r = {"in": False, "clause": "driver_failure"}
+    if r.get("in") is not True:
+        lab = ERASED + where + ":out:" + str(r.get("clause", "not_representable"))
+        return lab
+    if r["model"] != r["denote"]:
+        sr.corr_mismatch("Lean: view05(ofSExp e) = denote(unrender(strip e)) (instance of edif_reader_spec_erased)", inp, r["denote"], r["model"])
+    if impl_canon is not None:
+        d1 = G.first_diff(project05(G.view05(impl_canon)), r["denote"])
+        if d1:
+            sr.corr_mismatch("spec: view05(sdn.parse(text)) = Lean's `denote` of the abstract design of the stripped text (edif_reader_spec_erased)",
+                             inp, {"diff_at": d1}, None)
+    if mine is not None:
+        d0 = G.first_diff(project05(mine), r["denote"])
+        if d0:
+            sr.corr_mismatch("spec: the harness's denotation = Lean's `denote` of the abstract design of the stripped text", inp,
+                             {"diff_at": d0}, None)
+    return ERASED + where + ":in"
+
+
 def c05_design_text(inp):
     rng = random.Random(inp.get("lseed", 0))
     text, toks = G.render(inp["d"], rng, inp.get("style"), inp.get("mode"))
@@ -468,6 +500,8 @@ def c05_run_design(sr, work, drv, inp, shrink=True, deadline=None, shrunk=None):
                 sr.dist("theorem_fragment:C05.edif_reader_spec:out:" + ("wf." + fr["clause"] if "clause" in fr else "not_representable"))
     except Exception:
         sr.dist("theorem_fragment:C05.edif_reader_spec:out:not_representable")
+    if trig not in REJECT_TRIGS:
+        sr.dist(lean_inside_check(sr, drv, text, res.get("impl_canon"), {"kind": "design", **inp}, mine=expect))
     f = G.features(inp["d"])
     sr.case(stable_hash(inp["d"]), f["nontrivial"])
     sr.dist("c05.design" + (".trigger=" + trig if trig else ""))
@@ -568,6 +602,7 @@ def c05_run_file(sr, work, drv, inp, model_limit):
     except Exception as e:  # noqa
         sr.dist("c05.bundled-file.oracle-not-applicable")
     if len(text) <= model_limit:
+        sr.dist(lean_inside_check(sr, drv, text, c, inp, where="[bundled files]"))
         m = drv.ask({"fn": "parse", "text": text})
         if "ok" in m:
             d = G.first_diff(m["ok"], c)
@@ -657,6 +692,21 @@ def c03_eval(work, drv, nl, trigger=None, second_pass=True):
                 res["corr"].append(("reader on writer output: canon(parse(compose n)) = ofSExp(readS(lexE text))", {"diff_at": d}, None))
         else:
             res["corr"].append(("reader on writer output", "accepted", mr))
+    # reach of C05.edif_reader_spec_erased on the COMPOSER'S OWN OUTPUT (evidence; a disagreement is a correspondence mismatch)
+    try:
+        ins = drv.ask({"fn": "inside05", "text": text1})
+    except Exception:
+        ins = {"in": False, "clause": "driver_failure"}
+    if ins.get("in") is True:
+        res["tags"].append(ERASED + "[composer output]:in")
+        if ins["model"] != ins["denote"]:
+            res["corr"].append(("Lean: view05(ofSExp e) = denote(unrender(strip e)) on the composer's output", ins["denote"], ins["model"]))
+        d5 = G.first_diff(project05(G.view05(c2)), ins["denote"])
+        if d5:
+            res["corr"].append(("spec: view05(sdn.parse(compose n)) = Lean's `denote` of the abstract design of the stripped output",
+                                {"diff_at": d5}, None))
+    else:
+        res["tags"].append(ERASED + "[composer output]:out:" + str(ins.get("clause", "not_representable")))
     wf = canon.wf_problems(nl2)
     if wf:
         spec("reparse.result_not_well_formed." + wf[0].replace(" ", "_"), "; ".join(wf[:5]))
